@@ -211,10 +211,29 @@ fn history<I: Reg>(p: P, seed: u64, len: usize, maxitems: usize) -> Hist {
 
 /// SuperMinHash: sketch == position-wise minimum of single item sketches, after every chunk
 fn smh_join<F: num::Float + rand_distr::uniform::SampleUniform + std::fmt::Debug + 'static>(m: usize, seed: u64, n: usize) -> (u64, Option<(String, String)>) {
+    if seed % 3 == 0 {
+        smh_join_h::<F, probminhash::superminhasher::NoHashHasher>(m, seed, n, true)
+    } else {
+        smh_join_h::<F, FnvHasher>(m, seed, n, false)
+    }
+}
+
+fn smh_join_h<F: num::Float + rand_distr::uniform::SampleUniform + std::fmt::Debug + 'static, H: std::hash::Hasher + Default>(m: usize, seed: u64, n: usize, specials: bool) -> (u64, Option<(String, String)>) {
     let mut rng = rng_from(seed);
-    let ids = fresh_ids(&mut rng, n, 0);
-    let mut sk = SuperMinHash::<F, u64, FnvHasher>::new(m, Default::default());
-    let mut single = SuperMinHash::<F, u64, FnvHasher>::new(m, Default::default());
+    // with the pass-through hasher the stream holds adversarial hash values (0, u64::MAX, ...), often in front
+    let ids = if specials {
+        let mut v = ids_with_specials(&mut rng, n);
+        if let Some(p) = v.iter().position(|x| *x == 0) {
+            if rng.random_range(0..2) == 0 {
+                v.swap(0, p);
+            }
+        }
+        v
+    } else {
+        fresh_ids(&mut rng, n, 0)
+    };
+    let mut sk = SuperMinHash::<F, u64, H>::new(m, Default::default());
+    let mut single = SuperMinHash::<F, u64, H>::new(m, Default::default());
     let reuse_singles = rng.random_range(0..2) == 0;
     let mut model = vec![f64::INFINITY; m];
     let mut nops = 0;
@@ -236,7 +255,7 @@ fn smh_join<F: num::Float + rand_distr::uniform::SampleUniform + std::fmt::Debug
                 &single
             } else {
                 fresh = {
-                    let mut t = SuperMinHash::<F, u64, FnvHasher>::new(m, Default::default());
+                    let mut t = SuperMinHash::<F, u64, H>::new(m, Default::default());
                     t.sketch(d).unwrap();
                     t
                 };
